@@ -239,6 +239,12 @@ pub fn gen_map(rng: &mut Rng, o: &GenOpts) -> String {
             ot += (rng.below(12) as f64) * if o.integer_times { 125.0 } else { 125.5 };
         }
     }
+    if o.known_shapes && o.chronological && rng.chance(1, 15) {
+        // known shape: a slider that starts just below the largest time the decoder accepts and ends beyond it
+        // (and a louder circle in between, so that the encoder has a sample change to write at the slider's end)
+        ol.push("100,100,2147483000,2,0,L|200:100,1,1000".to_string());
+        ol.push("256,192,2147483500,1,0,0:0:0:70:".to_string());
+    }
     if !o.chronological {
         for _ in 0..ol.len() / 2 {
             let (a, b) = (rng.below(ol.len()), rng.below(ol.len()));
